@@ -2,6 +2,7 @@ import Pycoin.Proofs.Der
 import Pycoin.Proofs.SecRt
 import Pycoin.Proofs.CurveFacts.secp256k1
 import Pycoin.Proofs.KeyOrder
+import Pycoin.Proofs.DriverC10
 import Pycoin.Props.C11
 import Pycoin.Model.PyErr
 import Pycoin.Model.Wif
@@ -444,6 +445,12 @@ theorem C10_sec_rt_secp256k1 (net : Addr.Network) (k : Key) (comp : Bool)
         rw [hon] at this
         cases this
     exact C10_sec_rt_compressed k1 C10_field_secp256k1.1 C10_field_secp256k1.2.1 net k hx0 hx hy1 hy hon
+
+/-- the correspondence driver's multiplication (fixed-base loop over the table built once) is the model's
+`Generator.__mul__` with blinding factor 0; by C02 (`C02_blindedMul_eq`) the group element does not depend on the
+blinding factor -/
+theorem C10_driver_mul_is_model (e : Int) : Driver.C10.mulFast e = Curve.mulG k1 0 e :=
+  Driver.C10.mulFast_eq e
 
 end shipped
 
